@@ -264,6 +264,95 @@ fn hist_case(line: &str) -> Vec<String> {
     out
 }
 
+/// results only (no trace recording): `RES <id> <RESULT ...>` per case, on `threads` threads, in the given order
+fn cmd_results(path: &str, threads: usize) {
+    let lines: Vec<String> = std::io::BufReader::new(std::fs::File::open(path).unwrap())
+        .lines()
+        .map(|l| l.unwrap())
+        .filter(|l| !l.trim().is_empty() && !l.starts_with('#'))
+        .collect();
+    let chunk = lines.len().div_ceil(threads.max(1)).max(1);
+    let results: Vec<Vec<String>> = std::thread::scope(|s| {
+        let hs: Vec<_> = lines
+            .chunks(chunk)
+            .map(|c| {
+                std::thread::Builder::new()
+                    .stack_size(256 << 20)
+                    .spawn_scoped(s, move || {
+                        c.iter()
+                            .map(|l| {
+                                let m = kv(l);
+                                let mut g = mk_generator(&m);
+                                format!("RES {} {}", m["id"], run_src(&mut g, &m["src"]))
+                            })
+                            .collect::<Vec<String>>()
+                    })
+                    .unwrap()
+            })
+            .collect();
+        hs.into_iter().map(|h| h.join().unwrap()).collect()
+    });
+    let stdout = std::io::stdout();
+    let mut w = std::io::BufWriter::new(stdout.lock());
+    for r in results {
+        for l in r {
+            writeln!(w, "{}", l).unwrap();
+        }
+    }
+}
+
+/// nesting-depth witness NONE, TUPLE1 x n at the given protocol on a thread with `stack_kb` KiB of
+/// stack (0 = the main thread); prints DEEP-OK when generation AND teardown survive. Run in a child process.
+fn cmd_deep(v: usize, n: usize, stack_kb: usize) {
+    let run = move || {
+        let version = Version::try_from(v).unwrap();
+        let mut data = vec![];
+        if v >= 4 {
+            data.push(0u8);
+        }
+        // choice bytes: index of NONE among the candidates of the empty stack, then TUPLE1's index
+        let probe = |g: &mut Generator, d: &[u8]| g.generate_from_arbitrary(d).unwrap();
+        let mut g = Generator::new(version).with_opcode_range(n + 1, n + 1);
+        // find the byte that selects NONE first and TUPLE1 afterwards by trial on short runs
+        let mut none_b = 0u8;
+        let mut t1_b = 0u8;
+        for b in 0..=255u8 {
+            let mut g1 = Generator::new(version).with_opcode_range(1, 1);
+            let mut d = data.clone();
+            d.push(b);
+            let out = probe(&mut g1, &d);
+            let body = if v >= 2 { &out[2..] } else { &out[..] };
+            if body.first() == Some(&0x4e) && body.len() == 2 {
+                none_b = b;
+                break;
+            }
+        }
+        for b in 0..=255u8 {
+            let mut g1 = Generator::new(version).with_opcode_range(2, 2);
+            let mut d = data.clone();
+            d.push(none_b);
+            d.push(b);
+            let out = probe(&mut g1, &d);
+            let body = if v >= 2 { &out[2..] } else { &out[..] };
+            if body.len() == 3 && body[1] == 0x85 {
+                t1_b = b;
+                break;
+            }
+        }
+        data.push(none_b);
+        data.extend(std::iter::repeat(t1_b).take(n));
+        let out = g.generate_from_arbitrary(&data).unwrap();
+        let t1 = out.iter().filter(|&&b| b == 0x85).count();
+        drop(g);
+        println!("DEEP-OK v={} n={} tuple1={} len={}", v, n, t1, out.len());
+    };
+    if stack_kb == 0 {
+        run();
+    } else {
+        std::thread::Builder::new().stack_size(stack_kb << 10).spawn(run).unwrap().join().unwrap();
+    }
+}
+
 fn cmd_lines(path: &str, f: fn(&str) -> Vec<String>) {
     let stdout = std::io::stdout();
     let mut w = std::io::BufWriter::new(stdout.lock());
@@ -291,6 +380,11 @@ fn main() {
     let a: Vec<String> = std::env::args().collect();
     match a.get(1).map(|s| s.as_str()) {
         Some("trace") => cmd_trace(&a[2], a.get(3).map(|s| s.parse().unwrap()).unwrap_or(16)),
+        Some("results") => cmd_results(&a[2], a.get(3).map(|s| s.parse().unwrap()).unwrap_or(16)),
+        Some("deep") => {
+            let _ = std::panic::take_hook();
+            cmd_deep(a[2].parse().unwrap(), a[3].parse().unwrap(), a[4].parse().unwrap())
+        }
         Some("adapt") => cmd_lines(&a[2], adapt_case),
         Some("hist") => cmd_lines(&a[2], hist_case),
         Some("words") => cmd_words(a[2].parse().unwrap(), a[3].parse().unwrap()),
